@@ -5,7 +5,7 @@ SD=$(python3 /verif/tools/runner.py --build-support | grep support-dir | cut -d'
 if [ -z "$SKIP_P" ]; then
 rm -rf $S/repo && rsync -a --exclude target --exclude .git /repo/ $S/repo/
 cd /verif && VX_UNIT=P python3 tools/splice.py $S/repo contracts/mpd_protocol/*.vspec > $S/report_p.json || exit 2
-cd $S/repo && verus --crate-type=lib --edition=2024 --crate-name mpd_protocol -L dependency=$D -L dependency=$S --extern ahash=$(ls $D/libahash-*.rlib) --extern bytes=$(ls $D/libbytes-*.rlib) --extern nom=$(ls $D/libnom-*.rlib) --extern tracing=$(ls $D/libtracing-*.rlib) --extern tokio=$S/libtokio.rlib --import tokio=$S/vx_tokio.vir --extern vx_base=$S/libvx_base.rlib --import vx_base=$S/vx_base.vir --extern vx_spec=$S/libvx_spec.rlib --import vx_spec=$S/vx_spec.vir --cfg 'feature="async"' --no-verify --compile --export $S/mpd_protocol.vir -o $S/libmpd_protocol.rlib mpd_protocol/src/lib.rs 2>&1 | grep -A8 "^error" | head -30
+cd $S/repo && verus --crate-type=lib --edition=2024 --crate-name mpd_protocol -L dependency=$D -L dependency=$S --extern ahash=$(ls $D/libahash-*.rlib) --extern bytes=$(ls $D/libbytes-*.rlib) --extern nom=$S/libnom.rlib --import nom=$S/vx_nom.vir --extern tracing=$(ls $D/libtracing-*.rlib) --extern tokio=$S/libtokio.rlib --import tokio=$S/vx_tokio.vir --extern vx_base=$S/libvx_base.rlib --import vx_base=$S/vx_base.vir --extern vx_spec=$S/libvx_spec.rlib --import vx_spec=$S/vx_spec.vir --cfg 'feature="async"' --no-verify --compile --export $S/mpd_protocol.vir -o $S/libmpd_protocol.rlib mpd_protocol/src/lib.rs 2>&1 | grep -A8 "^error" | head -30
 fi
 cd /verif
 rm -rf $S/repo && rsync -a --exclude target --exclude .git /repo/ $S/repo/
